@@ -404,9 +404,9 @@ pub fn run_one_detached(seed: u64, yield_only: bool) -> Outcome {
         crate::ctl::ctl().begin(crate::ctl::MODE_YIELD, seed);
     } else {
         th::begin(seed, intensity);
-        if p.chance(1, 2) {
-            crate::ctl::ctl().set_rendezvous(ractor::verif::pt::WAIT_AFTER_NOTIFIED, ractor::verif::pt::STATUS_BEFORE_NOTIFY);
-        }
+    }
+    if p.chance(1, 2) {
+        crate::ctl::ctl().set_rendezvous(ractor::verif::pt::WAIT_AFTER_NOTIFIED, ractor::verif::pt::STATUS_BEFORE_NOTIFY);
     }
     let trace = Arc::new(Trace::new());
     let (cell, ports) = ActorCell::verif_detached::<Dummy>(None, None).expect("detached");
@@ -462,6 +462,9 @@ pub fn run_one_detached(seed: u64, yield_only: bool) -> Outcome {
         }));
     }
     WAITERS.lock().unwrap().clear();
+    if yield_only {
+        clients = th::stagger(clients, &mut p.fork());
+    }
     let _ = th::run_clients(clients);
     if yield_only {
         crate::ctl::ctl().end();
